@@ -3,7 +3,9 @@ from contracts import c_symm as S
 
 
 def build(run):
-    run.verify_c([S.index_permutation_full_contract(), S.translational_full_contract()])
+    ipf, trf = S.index_permutation_full_contract(), S.translational_full_contract()
+    run.verify_c([ipf, trf])
+    run.verify_c([S.perm_trans_full_contract(ipf, trf)], registry={"set_index_permutation_symmetry_fc": ipf, "set_translational_symmetry_fc": trf})
     run.verify_c([S.translational_compact_contract()])
     known = run.finding_status("E2") == "known"
     run.verify_c([S.compact_index_permutation_contract(known, True), S.compact_index_permutation_contract(known, False)])
